@@ -509,6 +509,9 @@ func registerBinary(e *Engine) {
 		if cs, ok := s.(string); ok {
 			return hex.EncodeToString([]byte(cs))
 		}
+		if len(cells) <= 32 {
+			return cellsToString(hexNibbleCells(fr, cells))
+		}
 		cp := make([]value, len(cells))
 		copy(cp, cells)
 		return &SymStr{parts: []strPart{{s: "hex~"}, {kind: "b", cells: cp}}}
@@ -518,6 +521,11 @@ func registerBinary(e *Engine) {
 			cp := make([]value, len(ss.parts[1].cells))
 			copy(cp, ss.parts[1].cells)
 			return tuple{cp, nilErr()}
+		}
+		if ss, ok := args[0].(*SymStr); ok {
+			if out, ok := unhexNibbleCells(fr, ss.toCells(fr)); ok {
+				return tuple{out, nilErr()}
+			}
 		}
 		s, ok := args[0].(string)
 		if !ok {
@@ -695,7 +703,25 @@ func hashCells(fr *frame, name string, width int, cells []value, real func([]byt
 	if b, ok := concBytes(cells); ok {
 		d := real(b)
 		h := &hashObj{name: name, input: cp, val: IntConst(new(big.Int).SetBytes(d))}
-		if len(reg) < 64 {
+		// relate the concrete digest to earlier symbolic digests of the same function
+		for _, o := range reg {
+			if o.name != name || o.val.isConst() {
+				continue
+			}
+			var same *Term
+			if len(o.input) != len(cp) && !anyBlob(o.input) {
+				same = tFalse
+			} else {
+				switch x := eqCells(fr, cp, o.input).(type) {
+				case bool:
+					same = BoolConst(x)
+				case *Term:
+					same = x
+				}
+			}
+			p.assume(Eq(Eq(o.val, h.val), same))
+		}
+		if len(reg) < 256 {
 			p.hostState["hashes"] = append(reg, h)
 		}
 		return bytesToCells(d)
@@ -932,4 +958,76 @@ func registerEvents(e *Engine) {
 		et := e.namedType("github.com/cosmos/cosmos-sdk/types", "Event")
 		return tuple{zero(et), nilErr()}
 	})
+}
+
+// hexNibbleCells renders bytes as lower-case hex characters; a symbolic byte b
+// becomes two character terms hexchar(b div 16), hexchar(b mod 16).
+type nibbleInfo struct {
+	byteCell value
+	high     bool
+}
+
+func hexNibbleCells(fr *frame, cells []value) []value {
+	tab, _ := fr.p.hostState["nibbles"].(map[*Term]nibbleInfo)
+	if tab == nil {
+		tab = map[*Term]nibbleInfo{}
+		fr.p.hostState["nibbles"] = tab
+	}
+	const digits = "0123456789abcdef"
+	out := make([]value, 0, 2*len(cells))
+	for _, c := range cells {
+		if cb, ok := c.(uint64); ok {
+			out = append(out, uint64(digits[cb>>4]), uint64(digits[cb&15]))
+			continue
+		}
+		t, _ := toTerm(c)
+		mk := func(n *Term, high bool) *Term {
+			ch := Ite(Lt(n, IntConst64(10)), Add(n, IntConst64(48)), Add(n, IntConst64(87)))
+			if ch.op == "ite" {
+				ch.lo, ch.hi = big.NewInt(48), big.NewInt(102)
+			}
+			tab[ch] = nibbleInfo{byteCell: c, high: high}
+			return ch
+		}
+		out = append(out, mk(EDiv(t, IntConst64(16)), true), mk(EMod(t, IntConst64(16)), false))
+	}
+	return out
+}
+
+func unhexNibbleCells(fr *frame, cells []value) ([]value, bool) {
+	tab, _ := fr.p.hostState["nibbles"].(map[*Term]nibbleInfo)
+	if len(cells)%2 != 0 {
+		return nil, false
+	}
+	out := make([]value, 0, len(cells)/2)
+	for i := 0; i < len(cells); i += 2 {
+		a, b := cells[i], cells[i+1]
+		ca, oka := a.(uint64)
+		cb, okb := b.(uint64)
+		if oka && okb {
+			v, err := hex.DecodeString(string([]byte{byte(ca), byte(cb)}))
+			if err != nil {
+				return nil, false
+			}
+			out = append(out, uint64(v[0]))
+			continue
+		}
+		ta, ok1 := a.(*Term)
+		tb, ok2 := b.(*Term)
+		if !ok1 || !ok2 || tab == nil {
+			return nil, false
+		}
+		ia, f1 := tab[ta]
+		ib, f2 := tab[tb]
+		if !f1 || !f2 || !ia.high || ib.high {
+			return nil, false
+		}
+		x, _ := toTerm(ia.byteCell)
+		y, _ := toTerm(ib.byteCell)
+		if x != y {
+			return nil, false
+		}
+		out = append(out, ia.byteCell)
+	}
+	return out, true
 }
